@@ -22,7 +22,8 @@ RULE = ('differential against reference codecs written from the PICO-8 format de
         ' Carts of format png_then_p8 / p8_then_png save ONE cart object in both formats in sequence (first format once more at the end): both files must hold the cart by the format descriptions and the cart object must be unchanged. Reference-written .p8.png inputs and label files come in image-tool flavours (interlaced, filtered, split IDAT, ancillary chunks).'
         ' A quarter of the reference-written .p8 files have no line terminator after their last row.'
         ' After loading, map.get_cell is compared with cart memory on 24 cells of both map halves (rows 32-63 live in sprite memory); reference .p8 files may keep the header line of a section that has no rows.'
-        ' Versions include 0; labels include the all-black one; elided files may end with the last sfx row.')
+        ' Versions include 0; labels include the all-black one; elided files may end with the last sfx row.'
+        ' Half of the elided reference .p8 files also omit their trailing un-edited sfx patterns (no notes, speed 16), as PICO-8 saves them: the reader must supply the defaults whatever carts the process loaded before (p8_sfx_rows_omitted).')
 ASSUMPTIONS = ['reference codecs follow the published P8FileFormat / P8PNGFileFormat / memory-map descriptions; '
                'they agree with picotool on the PICO-8-written carts in tests/testdata',
                'the .p8 music line cannot carry bit 7 of the 4th channel byte (stated in the property set, C03)']
@@ -251,6 +252,7 @@ def whole_cart(seed, fmt):
         # other direction; half of the time in the newer PICO-8 style that omits trailing empty rows (the cart's
         # memory then has empty tails in gfx/gff/map/music so that rows really get omitted)
         elide = ch.chance(128)
+        elide_sfx = False
         if elide:
             m2 = bytearray(mem)
             cut = [64 * ch.below(100), 128 * ch.below(2), 128 * ch.below(30), 4 * ch.below(60)]
@@ -260,19 +262,28 @@ def whole_cart(seed, fmt):
             m2[0x3000 + cut[1]:0x3100] = bytes(0x100 - cut[1])
             m2[0x2000 + cut[2]:0x3000] = bytes(0x1000 - cut[2])
             m2[0x3100 + cut[3]:0x3200] = b'\x41\x42\x43\x44' * ((0x100 - cut[3]) // 4)
+            if seed[-13] % 2 == 0:
+                # trailing sfx patterns nobody edited are not written either: a reader starts from PICO-8's defaults
+                # (speed 16), whatever carts the process has read before
+                cut_s = 1 + seed[-14] % 64
+                m2[0x3200 + 68 * cut_s:0x4300] = (bytes(64) + b'\x00\x10\x00\x00') * (64 - cut_s)
+                elide_sfx = True
             mem_r = bytes(m2)
         else:
             mem_r = mem
         exp = {'gfx': mem_r[0:0x2000], 'map': mem_r[0x2000:0x3000], 'gff': mem_r[0x3000:0x3100],
                'music': reffmt.music_mask(mem_r[0x3100:0x3200]), 'sfx': mem_r[0x3200:0x4300],
                'label': label, 'code': code, 'version': version}
-        text = reffmt.write_p8(version, code, mem_r, label, elide=('headers' if (elide and seed[-9] % 2) else elide))
+        text = reffmt.write_p8(version, code, mem_r, label, elide=('headers' if (elide and seed[-9] % 2) else elide),
+                                elide_sfx=elide_sfx)
         unterminated = seed[-5] % 4 == 0
         if unterminated:
             # the last row of the last section without a line terminator (editors strip trailing blank lines and the
             # final newline), or with the file's closing blank line removed only
             text = text.rstrip(b'\n') if seed[-6] % 2 == 0 else text[:-1]
-        case = dict(case, elided=elide, last_line_unterminated=unterminated)
+        case = dict(case, elided=elide, sfx_rows_omitted=elide_sfx, last_line_unterminated=unterminated)
+        if elide_sfx:
+            modes = modes + ('sfx_rows_omitted',)
         try:
             g2 = P8Formatter.from_file(io.BytesIO(text))
         except Exception as e:
@@ -417,6 +428,8 @@ def part_carts(ctx):
         modes = whole_cart(seed, fmt) if fmt in ('p8', 'png') else whole_cart_both(seed, fmt)
         if fmt == 'p8' and seed[-5] % 4 == 0:
             ctx.stats.count('p8_last_line_unterminated')
+        if 'sfx_rows_omitted' in modes:
+            ctx.stats.count('p8_sfx_rows_omitted')
         if fmt == 'png':
             ctx.stats.count('png_flavour_' + ('plain' if reffmt.png_flavour(seed[-8:-4])[1] == 'plain' else 'other'))
         ctx.stats.case(seed + fmt.encode(), sum(1 for m in modes if m in ('random', 'ramp')) >= 1,
@@ -514,7 +527,8 @@ def vacuity(total, tier):
     msgs = []
     if total.classes.get('sfx_words', 0) != 65536:
         msgs.append('sfx note words enumerated: %d' % total.classes.get('sfx_words', 0))
-    for lab in ('cart_p8', 'cart_png', 'cart_png_then_p8', 'cart_p8_then_png', 'stego_values', 'music_flags'):
+    for lab in ('cart_p8', 'cart_png', 'cart_png_then_p8', 'cart_p8_then_png', 'stego_values', 'music_flags',
+                'p8_sfx_rows_omitted'):
         if not total.classes.get(lab):
             msgs.append('class %s never exercised' % lab)
     return msgs
